@@ -254,7 +254,11 @@ theorem pause_ok (c : Cfg) : ∀ (f : Nat),
   induction f with
   | zero =>
     exact ⟨fun w x _ => ⟨PMono.refl w, fun _ => rfl, fun d y hd _ _ => absurd hd (by omega)⟩,
-           fun w x e _ _ _ => ⟨PMono.refl w, rfl⟩,
+           fun w x e _ he _ => by
+             simp only [prop, updateLocal, he]
+             split
+             · exact ⟨PMono.refl w, trivial⟩
+             · exact ⟨pmono_taskUpdate w _ _, trivial⟩,
            fun w x _ => ⟨PMono.refl w, rfl, fun d y _ hd _ _ => absurd hd (by omega)⟩⟩
   | succ f ih =>
     obtain ⟨ihA, ihB, ihC⟩ := ih
